@@ -27,7 +27,10 @@ func init() {
 	}
 }
 
-func schedBody(v int) []byte { return []byte(fmt.Sprintf("body-of-version-%d-0123456789abcdef", v)) }
+// every version has its own length, so that a Size taken from one version's metadata never fits another's body
+func schedBody(v int) []byte {
+	return []byte(fmt.Sprintf("body-of-version-%d-0123456789abcdef%s", v, strings.Repeat("+", v%10)))
+}
 
 // schedReplay walks the real goroutines along a schedule chosen by the interleaving model.
 // input: n, faults[n] (0 none, 1 connectErr, 2 readErr, 3 uncacheable), k, then k tokens:
@@ -165,7 +168,8 @@ func schedOnce(in []string, id int) []string {
 }
 
 // schedView classifies a client view: C<v>[s] complete (stale), T<v> truncated, H headers only,
-// E<code>, N nothing
+// E<code>, N nothing, M<b>/<e> body (or a prefix of it) of version b under the ETag of version e (a
+// response no origin ever sent)
 func schedView(v sysx.ClientView) string {
 	if v.Framing == "noresponse" || v.Status == 0 {
 		return "N"
@@ -180,6 +184,9 @@ func schedView(v sysx.ClientView) string {
 	for ver := 1; ver < 20; ver++ {
 		b := schedBody(ver)
 		if string(v.Body) == string(b) && v.Framing == "complete" {
+			if e := etagVersion(v); e != ver {
+				return "M" + hx.I(ver) + "/" + hx.I(e)
+			}
 			return "C" + hx.I(ver) + stale
 		}
 		if len(v.Body) > 0 && len(v.Body) < len(b) && string(b[:len(v.Body)]) == string(v.Body) && etagVersion(v) == ver {
@@ -188,6 +195,12 @@ func schedView(v sysx.ClientView) string {
 	}
 	if len(v.Body) == 0 {
 		return "H" + hx.I(etagVersion(v))
+	}
+	for ver := 1; ver < 20; ver++ {
+		b := schedBody(ver)
+		if len(v.Body) <= len(b) && string(b[:len(v.Body)]) == string(v.Body) {
+			return "M" + hx.I(ver) + "/" + hx.I(etagVersion(v))
+		}
 	}
 	return "X"
 }
